@@ -983,6 +983,8 @@ fn lit_only(e: &Sx) -> bool {
         "lit" => e.args()[0].atom() == "int",
         "un" => matches!(e.args()[0].atom(), "Minus" | "Plus" | "BitwiseNot") && lit_only(&e.args()[1]),
         "bin" => lit_only(&e.args()[1]) && lit_only(&e.args()[2]),
+        // `c ? 31 : -2147483647` between two literals is still the exact literal int in RSSL (and `int` in Metal)
+        "tern" => e.args().len() == 3 && lit_only(&e.args()[1]) && lit_only(&e.args()[2]),
         _ => false,
     }
 }
